@@ -307,7 +307,7 @@ func shuffleAll(rt *rapid.T, root *gen.NodeBP) *gen.NodeBP {
 func TestCheckDiff(t *testing.T) {
 	s := harness.NewSub("diff-accounting-and-purity",
 		"pairs of trees (as in C07: all node kinds, duplicate and same-kind siblings): independent trees with the same root tag, a tree and its permuted copy, a tree and a copy with 1..3 uniquely tagged leaves inserted on either side under plain parents; then a random sequence of 0..6 operations from {String, IsDeepEqual, Sort, Tag, CompareAgain}; after CompareNodes and after every operation: entry sides are identity nodes of the right input at the right depth, every input node is represented, unique leaves are one-sided on the correct side, deep-equal inputs give an all-two-sided diff, and both inputs' GEDCOM text and node counts are unchanged; non-trivial = both trees >= 3 nodes and (Sort in the sequence or a one-sided leaf)")
-	s.Rapid(t, harness.Share(harness.Pick(150000, 3000000)), 80, func(rt *rapid.T) {
+	s.Rapid(t, harness.Share(harness.Pick(150000, 10000000)), 80, func(rt *rapid.T) {
 		left := gen.EqTree(gen.EqTreeOpts{MaxNodes: 18, Roles: true}).Draw(rt, "left")
 		c := diffCase{Left: left}
 		c.Kind = rapid.SampledFrom([]string{"independent", "permuted-copy", "leaves-inserted", "leaves-inserted"}).Draw(rt, "kind")
